@@ -1,7 +1,8 @@
 """C04 -- each reference genome is compared through its own signature, matched by ID.
 
 Tie: B.  Every case is realised as real files written by the harness -- an SQLite genome database (copied
-from a template holding the schema, one genome set and one taxon; genome rows inserted with sqlite3) and an
+from a template holding the schema, one genome set and one taxon; genome rows inserted with sqlite3, or -- field
+`dblayout` -- by an op list that fixes the physical order and history of the rows, run through sqlite3 or the ORM) and an
 HDF5 signature file (`dump_signatures` of an `AnnotatedSignatures` with the case's identifiers, in the
 case's order, with the case's `id_attr`) -- and loaded by the code under test:
 
@@ -71,14 +72,27 @@ predicate judged there, "M" = also compared with the extracted model).  "+" mark
   objects reused / several databases open         was none (one database at a time).  + several-databases-open-shared-objects:
                                                   2-3 open together (some failing), ONE opened signature file for several
                                                   genome sets, same directory twice, interleaved repeated queries             P
+  genome database FILE: how the rows got there   was: every genome row inserted in primary-key order TOGETHER with its annotation
+  (physical row order; "all genome sets")         row, rows outside the set only after the set, one taxon, dense keys 1..n -- the
+                                                  annotation rows were always in the order of the genome rows, so two separately
+                                                  ordered queries lined up by accident.  + database-layouts: op lists (LAYOUT OPS)
+                                                  giving independent orders of genome-row and annotation-row inserts (registered
+                                                  first / annotated later, a set picked from rows already there, interleaved),
+                                                  explicit out-of-order rowids, rows deleted and re-inserted, temporary rows and
+                                                  a temporary second genome set (holes), taxa assigned in a separate pass (2-4
+                                                  taxa), VACUUM / ANALYZE, sparse / huge primary keys, rows outside the set
+                                                  anywhere in key order, identifiers not monotone in the key; sqlite3 or ORM
+                                                  builder; complete for the annotation orders of 3 (x file orders) and 4 genomes.
+                                                  Driven through load (dir / ctor / load / mem), cli, multi and match            P M (multi, match: P)
   gambit query                                    was -d DIR -s FILE -f json.  + cli-forms: csv / archive (closest_match,
                                                   primary_match), --strict, -c, --no-progress, --db, GAMBIT_DB_PATH, genome
                                                   FILES positional and -l (query_parse; distances from the harness's own k-mer
                                                   search), odd identifier values, other file names, storage forms, directories
                                                   with a second database-named entry (must exit non-zero)                      P (M: loads or not)
   not driven                                      floats / bools as in-memory identifiers (equal to ints in Python; outside
-                                                  "identifier"); a genome database with two genome sets (only_genomeset refuses
-                                                  it before the matching starts); meta.id_attr given as InstrumentedAttribute
+                                                  "identifier"); a FINISHED genome database with two genome sets (only_genomeset
+                                                  refuses it before the matching starts; a second set that existed while the file
+                                                  was built and was removed again IS driven by database-layouts); meta.id_attr given as InstrumentedAttribute
                                                   (cannot come from a file); FIFOs / unreadable entries
 
 GENUINE DEFECT found by the audit in the code as found, repaired in /repo by a fix: commit (repo_fixes/C04-sqlite-url.diff):
@@ -107,19 +121,25 @@ RULE = ('load: genome rows (4 identifier columns, NULLs, rows outside the genome
         'identifiers), heavy-padding (30-300 unrelated signatures), id-storage (HDF5 string / integer widths / byte order, '
         'in-memory collections), entry-forms (load(), path forms, keyword calls, query call forms, repeated queries), '
         'not-identifier-attributes, compound-defects-and-harmless-oddities, directories-special (links, empty, many files, '
-        'odd names, missing path), cli-forms (csv / archive / genome files / env var). multi: 2-3 databases open together or '
+        'odd names, missing path), cli-forms (csv / archive / genome files / env var), database-layouts (the genome database file '
+        'built by an op list: genome rows and annotation rows inserted in independent orders, explicit rowids, deleted and re-inserted '
+        'rows, temporary rows / second genome set, taxa assigned later, VACUUM / ANALYZE, sparse primary keys, out-of-set rows anywhere; '
+        'the logical content alone is judged; also non-trivial when the annotation rows are physically in another order than the genome '
+        'rows). multi: 2-3 databases open together or '
         'sharing one signature object, non-trivial: >=2 databases one of which is non-trivial as load. match: '
         'genomes_by_id(_subset) called directly, non-trivial: >=2 genomes and >=2 identifiers')
 TRUSTED = ['SQLAlchemy/SQLite: `genomeset.genomes.join(...).add_columns(attr)` returns one row per AnnotatedGenome of '
            'the set with the stored column value; `.filter(attr == None).count()` counts the NULLs; `.count()` the rows; '
-           'one ORM object per row (identity map) -- modelled as list operations over the harness\'s row table',
+           'one ORM object per row (identity map) -- modelled as list operations over the harness\'s row table; that this does not '
+           'depend on the physical order / history of the rows in the file is not assumed but driven (stream database-layouts)',
            'h5py/libhdf5: a string / integer dataset reads back as written (identifiers without NUL characters); '
            'metadata attribute id_attr reads back as written (None as h5py.Empty)',
            'pathlib.PurePath.suffix (CPython 3.12 source) and os.scandir: modelled by Model/C04.v suffix over code points; '
            'names of one directory are pairwise distinct',
            'NumPy float32 division of the exact intersection/union counts as the directly computed distance '
            '(cross-checked against gambit.metric.jaccarddist on the whole pool in setup)',
-           'harness/c04.py file construction (template database + sqlite3 inserts, dump_signatures)']
+           'harness/c04.py file construction (template database + sqlite3 inserts or LAYOUT OPS through sqlite3 / SQLAlchemy, '
+           'dump_signatures); layout_walk: the finished file of an op list holds exactly the rows of the case\'s table']
 ASSUMPTIONS = ['rows of the genome set are distinct rows (hypothesis NoDup gs of C04_success_iff): primary keys are unique',
                'Python equality of identifier values is equality of (type, value): int vs str never equal; NumPy integers '
                'equal to Python ints of the same value',
@@ -295,20 +315,268 @@ def _fasta_queries():
 	_S['fa_list'] = lst
 
 
-def write_genome_db(path, genomes):
-	"""genomes: [pk, key, genbank_acc, refseq_acc, ncbi_id, ncbi_db, in_set]"""
+def write_genome_db(path, genomes, layout=None):
+	"""genomes: [pk, key, genbank_acc, refseq_acc, ncbi_id, ncbi_db, in_set]; layout: None (every genome row inserted in list
+	order, together with its annotation row) or dict(ops=[...], builder='sql'|'orm') -- see LAYOUT OPS below"""
 	shutil.copyfile(_S['template'], path)
+	if layout:
+		if layout.get('builder', 'sql') == 'orm':
+			_build_layout_orm(path, genomes, layout['ops'])
+		else:
+			_build_layout_sql(path, genomes, layout['ops'])
+		return
 	con = sqlite3.connect(path)
 	try:
 		for pk, key, gb, rs, nid, ndb, in_set in genomes:
-			con.execute('INSERT INTO genomes (id, key, description, ncbi_db, ncbi_id, genbank_acc, refseq_acc) VALUES (?,?,?,?,?,?,?)',
-			            (pk, key, f'genome {pk}', ndb, nid, gb, rs))
+			con.execute(INSERT_GENOME, (pk, key, f'genome {pk}', ndb, nid, gb, rs))
 			if in_set:
 				con.execute('INSERT INTO genome_annotations (genome_id, genome_set_id, taxon_id, organism) VALUES (?,1,1,?)',
 				            (pk, f'organism {pk}'))
 		con.commit()
 	finally:
 		con.close()
+
+
+INSERT_GENOME = 'INSERT INTO genomes (id, key, description, ncbi_db, ncbi_id, genbank_acc, refseq_acc) VALUES (?,?,?,?,?,?,?)'
+
+# ------------------------------------------------------------------------------------------------
+# LAYOUT OPS: how the genome database file came to hold its rows (stream database-layouts).  The LOGICAL content of the
+# finished file is always case['genomes'] (the genome rows with their identifier values; which of them are in genome set
+# 1) -- the op list only decides in which physical order (and after which detours) the rows got there:
+#   ['g', pk]                    INSERT the genome row pk of the case's table
+#   ['tg', pk]                   INSERT a temporary genome row (not in the table; must be deleted again)
+#   ['dg', pk]                   DELETE genome row pk and its annotation rows
+#   ['a', pk, rowid, taxon]      INSERT the annotation row (genome pk, genome set 1); rowid None = SQLite chooses (largest + 1),
+#                                else the explicit rowid; taxon None = not assigned yet (must be assigned by a later 't')
+#   ['da', pk]                   DELETE that annotation row
+#   ['t', pk, taxon]             UPDATE the annotation row's taxon
+#   ['taxon', id]                INSERT a further taxon of genome set 1 (taxon 1 is in the template)
+#   ['gs2'] ['a2', pk, rowid] ['da2', pk] ['dgs2']
+#                                a second genome set, annotation rows for it, and its removal (with its annotation rows)
+#   ['commit'] ['vacuum'] ['analyze']
+# builder 'sql': the statements through sqlite3; 'orm': the same steps through gambit.db.models objects in a SQLAlchemy
+# session, flushed after every op (no explicit rowids there).
+# ------------------------------------------------------------------------------------------------
+
+LAYOUT_BUILDERS = ('sql', 'orm')
+ROWID_MAX = 2 ** 40
+
+
+def tmp_key(pk):
+	return f'temporary-row/{pk}'
+
+
+def _is_int(x, lo, hi):
+	return isinstance(x, int) and not isinstance(x, bool) and lo <= x <= hi
+
+
+def layout_walk(genomes, layout):
+	"""the harness's own reading of an op list -> (problem | None, pks of the annotation rows of genome set 1 in physical
+	(rowid) order).  problem is None iff every op is applicable when it comes and the finished file holds exactly the
+	case's genome rows, exactly the case's in-set genomes annotated in genome set 1 (each with a taxon), and nothing of a
+	second genome set or of temporary rows."""
+	if not isinstance(layout, dict) or layout.get('builder', 'sql') not in LAYOUT_BUILDERS or not isinstance(layout.get('ops'), list):
+		return 'layout must be dict(ops=[...], builder=sql|orm)', []
+	orm = layout.get('builder', 'sql') == 'orm'
+	table = {g[0]: g for g in genomes}
+	if any(str(g[1]).startswith('temporary-row/') for g in genomes):
+		return 'a genome key collides with the keys of temporary rows', []
+	present = {}          # pk -> 'real' | 'tmp'
+	rows = {}             # rowid -> (pk, genome set)
+	taxon_of = {}         # pk -> taxon of its set-1 annotation row
+	taxa = {1}
+	set2 = False
+	vacuumed = False
+
+	def find(pk, gs):
+		for r, v in rows.items():
+			if v == (pk, gs):
+				return r
+		return None
+
+	def add_row(pk, gs, rowid):
+		nonlocal vacuumed
+		if rowid is None:
+			rowid = max(rows) + 1 if rows else 1
+		elif orm or vacuumed or not _is_int(rowid, 1, ROWID_MAX) or rowid in rows:
+			return False
+		rows[rowid] = (pk, gs)
+		return True
+
+	for op in layout['ops']:
+		if not isinstance(op, list) or not op or not isinstance(op[0], str):
+			return f'bad op {op!r}', []
+		name, args = op[0], op[1:]
+		bad = f'op {op!r} is not applicable here'
+		if name == 'g' and len(args) == 1:
+			if args[0] not in table or args[0] in present:
+				return bad, []
+			present[args[0]] = 'real'
+		elif name == 'tg' and len(args) == 1:
+			if not _is_int(args[0], 1, 2 ** 63 - 1) or args[0] in table or args[0] in present:
+				return bad, []
+			present[args[0]] = 'tmp'
+		elif name == 'dg' and len(args) == 1:
+			if args[0] not in present:
+				return bad, []
+			del present[args[0]]
+			for r in [r for r, v in rows.items() if v[0] == args[0]]:
+				del rows[r]
+			taxon_of.pop(args[0], None)
+		elif name == 'a' and len(args) == 3:
+			pk, rowid, tx = args
+			if pk not in present or find(pk, 1) is not None or not (tx is None or tx in taxa) or not add_row(pk, 1, rowid):
+				return bad, []
+			taxon_of[pk] = tx
+		elif name == 'a2' and len(args) == 2:
+			if not set2 or args[0] not in present or find(args[0], 2) is not None or not add_row(args[0], 2, args[1]):
+				return bad, []
+		elif name in ('da', 'da2') and len(args) == 1:
+			r = find(args[0], 1 if name == 'da' else 2)
+			if r is None:
+				return bad, []
+			del rows[r]
+			if name == 'da':
+				del taxon_of[args[0]]
+		elif name == 't' and len(args) == 2:
+			if find(args[0], 1) is None or args[1] not in taxa:
+				return bad, []
+			taxon_of[args[0]] = args[1]
+		elif name == 'taxon' and len(args) == 1:
+			if not _is_int(args[0], 2, 1000) or args[0] in taxa:
+				return bad, []
+			taxa.add(args[0])
+		elif name == 'gs2' and not args:
+			if set2:
+				return bad, []
+			set2 = True
+		elif name == 'dgs2' and not args:
+			if not set2:
+				return bad, []
+			set2 = False
+			for r in [r for r, v in rows.items() if v[1] == 2]:
+				del rows[r]
+		elif name in ('commit', 'analyze') and not args:
+			pass
+		elif name == 'vacuum' and not args:
+			vacuumed = True
+			rows = {n + 1: rows[r] for n, r in enumerate(sorted(rows))}
+		else:
+			return f'bad op {op!r}', []
+	order = [rows[r][0] for r in sorted(rows) if rows[r][1] == 1]
+	if set2 or any(v[1] == 2 for v in rows.values()):
+		return 'the second genome set is still there', order
+	if set(present) != set(table) or any(v != 'real' for v in present.values()):
+		return 'the genome rows of the finished file are not the rows of the case', order
+	if sorted(order) != sorted(g[0] for g in genomes if g[6]):
+		return 'the annotated genomes of the finished file are not the in-set genomes of the case', order
+	if any(taxon_of.get(pk) is None for pk in order):
+		return 'an annotation row was left without taxon', order
+	return None, order
+
+
+def layout_scrambled(case):
+	"""does the physical order of the set's annotation rows differ from the order of the genome rows (primary key)?"""
+	if not case.get('dblayout'):
+		return False
+	order = layout_walk(case['genomes'], case['dblayout'])[1]
+	return order != sorted(order)
+
+
+def _build_layout_sql(path, genomes, ops):
+	table = {g[0]: g for g in genomes}
+	con = sqlite3.connect(path)
+	try:
+		con.execute('PRAGMA synchronous=OFF')      # scratch files: no need to wait for the disk at every commit op
+		for op in ops:
+			name, args = op[0], op[1:]
+			if name == 'g':
+				pk, key, gb, rs, nid, ndb, _ = table[args[0]]
+				con.execute(INSERT_GENOME, (pk, key, f'genome {pk}', ndb, nid, gb, rs))
+			elif name == 'tg':
+				con.execute(INSERT_GENOME, (args[0], tmp_key(args[0]), 'temporary', None, None, None, None))
+			elif name == 'dg':
+				con.execute('DELETE FROM genome_annotations WHERE genome_id=?', (args[0],))
+				con.execute('DELETE FROM genomes WHERE id=?', (args[0],))
+			elif name == 'a':
+				con.execute('INSERT INTO genome_annotations (rowid, genome_id, genome_set_id, taxon_id, organism) VALUES (?,?,1,?,?)',
+				            (args[1], args[0], args[2], f'organism {args[0]}'))
+			elif name == 'a2':
+				con.execute('INSERT INTO genome_annotations (rowid, genome_id, genome_set_id, taxon_id, organism) VALUES (?,?,2,NULL,?)',
+				            (args[1], args[0], f'other organism {args[0]}'))
+			elif name in ('da', 'da2'):
+				con.execute('DELETE FROM genome_annotations WHERE genome_id=? AND genome_set_id=?', (args[0], 1 if name == 'da' else 2))
+			elif name == 't':
+				con.execute('UPDATE genome_annotations SET taxon_id=? WHERE genome_id=? AND genome_set_id=1', (args[1], args[0]))
+			elif name == 'taxon':
+				con.execute('INSERT INTO taxa (id, key, name, rank, genome_set_id, distance_threshold, report) VALUES (?,?,?,?,1,0.9,1)',
+				            (args[0], f't{args[0]}', f'Taxon {args[0]}', 'species'))
+			elif name == 'gs2':
+				con.execute("INSERT INTO genome_sets (id, key, version, name) VALUES (2, 'verif/c04-other', '1.0', 'other')")
+			elif name == 'dgs2':
+				con.execute('DELETE FROM genome_annotations WHERE genome_set_id=2')
+				con.execute('DELETE FROM genome_sets WHERE id=2')
+			elif name == 'commit':
+				con.commit()
+			elif name in ('vacuum', 'analyze'):
+				con.commit()
+				con.execute(name.upper())
+		con.commit()
+	finally:
+		con.close()
+
+
+def _build_layout_orm(path, genomes, ops):
+	from sqlalchemy import create_engine
+	from sqlalchemy.orm import Session
+	from gambit.db.models import ReferenceGenomeSet, Taxon, Genome, AnnotatedGenome
+	table = {g[0]: g for g in genomes}
+	eng = create_engine('sqlite:///' + path)
+	try:
+		with Session(eng) as s:
+			for op in ops:
+				name, args = op[0], op[1:]
+				if name == 'g':
+					pk, key, gb, rs, nid, ndb, _ = table[args[0]]
+					s.add(Genome(id=pk, key=key, description=f'genome {pk}', ncbi_db=ndb, ncbi_id=nid, genbank_acc=gb, refseq_acc=rs))
+				elif name == 'tg':
+					s.add(Genome(id=args[0], key=tmp_key(args[0]), description='temporary'))
+				elif name == 'dg':
+					for ag in s.query(AnnotatedGenome).filter_by(genome_id=args[0]).all():
+						s.delete(ag)
+					s.flush()
+					s.delete(s.get(Genome, args[0]))
+				elif name == 'a':
+					s.add(AnnotatedGenome(genome_id=args[0], genome_set_id=1, taxon_id=args[2], organism=f'organism {args[0]}'))
+				elif name == 'a2':
+					s.add(AnnotatedGenome(genome_id=args[0], genome_set_id=2, taxon_id=None, organism=f'other organism {args[0]}'))
+				elif name in ('da', 'da2'):
+					s.delete(s.get(AnnotatedGenome, (args[0], 1 if name == 'da' else 2)))
+				elif name == 't':
+					s.get(AnnotatedGenome, (args[0], 1)).taxon_id = args[1]
+				elif name == 'taxon':
+					s.add(Taxon(id=args[0], key=f't{args[0]}', name=f'Taxon {args[0]}', rank='species', genome_set_id=1, distance_threshold=0.9,
+					            report=True))
+				elif name == 'gs2':
+					s.add(ReferenceGenomeSet(id=2, key='verif/c04-other', version='1.0', name='other'))
+				elif name == 'dgs2':
+					for ag in s.query(AnnotatedGenome).filter_by(genome_set_id=2).all():
+						s.delete(ag)
+					s.flush()
+					s.delete(s.get(ReferenceGenomeSet, 2))
+				elif name == 'commit':
+					s.commit()
+				elif name in ('vacuum', 'analyze'):
+					s.commit()
+					con = sqlite3.connect(path)
+					try:
+						con.execute(name.upper())
+					finally:
+						con.close()
+				s.flush()
+			s.commit()
+	finally:
+		eng.dispose()
 
 
 STR_STORE = ('O', 'U', 'S')
@@ -450,6 +718,8 @@ def _validate_forms(case, g, ids):
 			return False
 	if any(not (isinstance(q, int) and 0 <= q < NQUERY) for q in case.get('queries', [])):
 		return False
+	if case.get('dblayout') is not None and layout_walk(g, case['dblayout'])[0] is not None:
+		return False
 	return True
 
 
@@ -545,7 +815,7 @@ def file_names(case):
 def write_case_files(case, d):
 	"""the case's genome database and (unless the signatures stay in memory) signature file, in directory d"""
 	gname, sname = file_names(case)
-	write_genome_db(os.path.join(d, gname), case['genomes'])
+	write_genome_db(os.path.join(d, gname), case['genomes'], case.get('dblayout'))
 	if case.get('via') != 'mem':
 		write_sig_file(os.path.join(d, sname), case['sigs'], case['attr'], case.get('ids_as'), case.get('sig_dtype'))
 
@@ -728,7 +998,7 @@ def nontrivial_load(case, orc):
 	if not orc['must_load']:
 		return True
 	order = [orc['own'][g[0]][0] for g in sorted(inset)]
-	return order != list(range(len(inset))) or len(case['sigs']) > len(inset)
+	return order != list(range(len(inset))) or len(case['sigs']) > len(inset) or layout_scrambled(case)
 
 
 def k_load(ctx, cases):
@@ -1149,7 +1419,7 @@ def k_multi(ctx, cases):
 					d = _newdir()
 					dirs.append(d)
 					if share == 'sigs':
-						write_genome_db(os.path.join(d, file_names(c)[0]), c['genomes'])
+						write_genome_db(os.path.join(d, file_names(c)[0]), c['genomes'], c.get('dblayout'))
 						if i == 0:
 							write_sig_file(os.path.join(d, file_names(c)[1]), c['sigs'], c['attr'], c.get('ids_as'), c.get('sig_dtype'))
 							shared = load_signatures(os.path.join(d, file_names(c)[1]))
@@ -1225,7 +1495,7 @@ def k_match(ctx, cases):
 		what = None
 		out = {}
 		try:
-			write_genome_db(os.path.join(d, 'g.gdb'), c['genomes'])
+			write_genome_db(os.path.join(d, 'g.gdb'), c['genomes'], c.get('dblayout'))
 			session, gset = load_genomeset(os.path.join(d, 'g.gdb'))
 			a = getattr(Genome, attr) if c['attr_form'] == 'attribute' else attr
 			idc = mem_signatures(probe['sigs'], attr, 'list', c['ids_form']).ids
@@ -1709,6 +1979,363 @@ def gen_match(ctx, rng):
 	ctx.count('stream:matching-functions', n_g)
 
 
+# ---- database layouts -------------------------------------------------------------------------------
+
+LAYOUT_SHAPES = {
+	# shape: dict(phased = every genome row before the first annotation row, g = order of the genome-row inserts, a = order of the
+	#             annotation-row inserts, rowids = explicit rowids, later = taxa assigned in a separate pass, detours = what else happens)
+	'annotated-later': dict(phased=True, g='pk', a='random'),
+	'annotated-in-reverse': dict(phased=True, g='pk', a='reverse'),
+	'registered-in-any-order': dict(phased=True, g='random', a='random'),
+	'interleaved': dict(phased=False, g='random', a='random'),
+	'explicit-rowids': dict(phased=False, g='pk', a='pk', rowids=True),
+	'taxa-assigned-later': dict(phased=True, g='pk', a='random', later=True, detours=('taxon', 'taxon', 't')),
+	'deleted-and-reinserted': dict(phased=False, g='pk', a='pk', detours=('da', 'da', 'dg')),
+	'temporary-rows': dict(phased=False, g='pk', a='pk', detours=('tg', 'tg', 'atmp', 'atmp', 'dgtmp', 'da')),
+	'two-genome-sets': dict(phased=False, g='pk', a='random', detours=('gs2', 'a2', 'a2', 'a2', 'da2', 'dgs2')),
+	'maintenance': dict(phased=True, g='pk', a='random', detours=('commit', 'vacuum', 'analyze', 'da')),
+	'in-one-pass': dict(phased=False, g='pk', a='pk'),      # what every other stream does (control)
+}
+ALL_DETOURS = ('tg', 'atmp', 'dgtmp', 'da', 'dg', 'gs2', 'a2', 'a2', 'da2', 'dgs2', 'taxon', 't', 'commit', 'vacuum', 'analyze')
+
+
+def _ordered(rng, xs, how):
+	xs = sorted(xs)
+	if how == 'reverse':
+		xs.reverse()
+	elif how == 'random':
+		rng.shuffle(xs)
+	return xs
+
+
+def random_layout(rng, genomes, shape):
+	"""an op list (see LAYOUT OPS) that ends in the logical content `genomes`, as a random walk: the pending genome-row
+	and annotation-row inserts are issued in their chosen orders, mixed with the shape's detours (temporary rows, deletions
+	that put a row back on the pending list, a second genome set, taxa, maintenance); what the detours left behind is
+	cleared away at the end"""
+	if shape == 'mixed':
+		f = dict(phased=rng.random() < 0.4, g=rng.choice(['pk', 'random', 'reverse']), a=rng.choice(['pk', 'random', 'random', 'reverse']),
+		         rowids=rng.random() < 0.3, later=rng.random() < 0.3, detours=tuple(rng.sample(ALL_DETOURS, rng.randint(2, 8))))
+	else:
+		f = LAYOUT_SHAPES[shape]
+	builder = 'orm' if not f.get('rowids') and rng.random() < 0.25 else 'sql'
+	table = {g[0]: g for g in genomes}
+	inset = {g[0] for g in genomes if g[6]}
+	pend_g = _ordered(rng, table, f['g'])
+	pend_a = _ordered(rng, inset, f['a'])
+	detours = list(f.get('detours', ()))
+	budget = rng.randint(2, 4 + len(table)) if detours else 0
+	rowid_style = rng.choice(['descending', 'random', 'sparse'])
+	next_desc = [rng.choice([50, 1000, ROWID_MAX])]
+	ops = []
+	present, tmp = set(), set()
+	rows = {}            # rowid -> (pk, genome set)
+	taxon_of = {}        # pk -> taxon of its current set-1 annotation row
+	taxa = [1]
+	set2 = vacuumed = False
+	had_set2 = False
+
+	def annotated(gs):
+		return {v[0] for v in rows.values() if v[1] == gs}
+
+	def insert_row(pk, gs):
+		rowid = None
+		if f.get('rowids') and not vacuumed and rng.random() < 0.8:
+			if rowid_style == 'descending':
+				next_desc[0] -= rng.randint(1, 3)
+				rowid = next_desc[0]
+			elif rowid_style == 'random':
+				rowid = rng.randint(1, 3 * len(table) + 6)
+			else:
+				rowid = rng.choice([rng.randint(1, 40), rng.randint(2 ** 31 - 5, 2 ** 31 + 5), rng.randint(2 ** 32, ROWID_MAX)])
+			if rowid < 1 or rowid in rows:
+				rowid = None
+		rows[rowid if rowid is not None else (max(rows) + 1 if rows else 1)] = (pk, gs)
+		return rowid
+
+	def drop_rows(pred):
+		for r in [r for r, v in rows.items() if pred(v)]:
+			del rows[r]
+
+	while pend_g or pend_a or budget > 0:
+		ready = [pk for pk in pend_a if pk in present] if not (f['phased'] and pend_g) else []
+		choices = (['g'] * 3 if pend_g else []) + (['a'] * 3 if ready else [])
+		if budget > 0:
+			choices += detours
+		what = rng.choice(choices)
+		if what == 'g':
+			pk = pend_g.pop(0)
+			ops.append(['g', pk])
+			present.add(pk)
+			continue
+		if what == 'a':
+			pend_a.remove(ready[0])
+			tx = None if f.get('later') else rng.choice(taxa)
+			ops.append(['a', ready[0], insert_row(ready[0], 1), tx])
+			taxon_of[ready[0]] = tx
+			continue
+		budget -= 1
+		a1, a2 = annotated(1), annotated(2)
+		if what == 'tg':
+			space = [x for x in list(range(1, 4 * len(table) + 8)) + [max(table) + 1, max(table) + 2] if x not in table and x not in present]
+			pk = rng.choice(space)
+			ops.append(['tg', pk])
+			present.add(pk)
+			tmp.add(pk)
+		elif what == 'atmp' and tmp - a1:
+			pk = rng.choice(sorted(tmp - a1))
+			ops.append(['a', pk, insert_row(pk, 1), rng.choice(taxa)])
+			taxon_of[pk] = taxa[0]      # any non-None: temporary rows are deleted again
+		elif what == 'dgtmp' and tmp:
+			pk = rng.choice(sorted(tmp))
+			ops.append(['dg', pk])
+			tmp.discard(pk)
+			present.discard(pk)
+			drop_rows(lambda v: v[0] == pk)
+		elif what == 'da' and a1:
+			pk = rng.choice(sorted(a1))
+			ops.append(['da', pk])
+			drop_rows(lambda v: v == (pk, 1))
+			if pk in inset:
+				pend_a.insert(rng.randint(0, len(pend_a)), pk)
+		elif what == 'dg' and present - tmp:
+			pk = rng.choice(sorted(present - tmp))
+			ops.append(['dg', pk])
+			present.discard(pk)
+			drop_rows(lambda v: v[0] == pk)
+			pend_g.insert(rng.randint(0, len(pend_g)), pk)
+			if pk in inset and pk not in pend_a:
+				pend_a.insert(rng.randint(0, len(pend_a)), pk)
+		elif what == 'gs2' and not set2 and not had_set2:
+			ops.append(['gs2'])
+			set2 = had_set2 = True
+		elif what == 'a2' and set2 and present - a2:
+			pk = rng.choice(sorted(present - a2))
+			ops.append(['a2', pk, insert_row(pk, 2)])
+		elif what == 'da2' and a2:
+			pk = rng.choice(sorted(a2))
+			ops.append(['da2', pk])
+			drop_rows(lambda v: v == (pk, 2))
+		elif what == 'dgs2' and set2 and a2:
+			ops.append(['dgs2'])
+			set2 = False
+			drop_rows(lambda v: v[1] == 2)
+		elif what == 'taxon' and len(taxa) < 4:
+			taxa.append(max(taxa) + rng.randint(1, 5))
+			ops.append(['taxon', taxa[-1]])
+		elif what == 't' and a1:
+			ops.append(['t', rng.choice(sorted(a1)), rng.choice(taxa)])
+			taxon_of[ops[-1][1]] = ops[-1][2]
+		elif what in ('commit', 'vacuum', 'analyze'):
+			ops.append([what])
+			if what == 'vacuum':
+				vacuumed = True
+				rows = {n + 1: rows[r] for n, r in enumerate(sorted(rows))}
+	# clear away what the detours left behind, assign the taxa that are still open
+	tail = [['dg', pk] for pk in _ordered(rng, tmp, 'random')]
+	if set2:
+		tail.append(['dgs2'])
+	rng.shuffle(tail)
+	ops += tail
+	ops += [['t', pk, rng.choice(taxa)] for pk in _ordered(rng, [pk for pk in annotated(1) if taxon_of.get(pk) is None], 'random')]
+	if 'analyze' in detours and rng.random() < 0.5:
+		ops.append(['analyze'])
+	ops.append(['commit'])
+	return dict(ops=ops, builder=builder)
+
+
+BIG_PKS = [2 ** 31 - 1, 2 ** 31, 2 ** 32 + 5, 2 ** 40 + 3, 2 ** 53 + 1, 2 ** 62]
+
+
+def layout_genomes(rng, attr, n, n_out):
+	"""n genomes in the set and n_out genome rows outside it, the two kinds INTERLEAVED in primary-key order; primary keys
+	dense, with gaps, or huge; identifier values not monotone in the primary key; rows outside the set may lack the
+	attribute or (ncbi_id) share the number of a genome of the set under another ncbi_db"""
+	total = n + n_out
+	style = rng.choice(['dense', 'gaps', 'gaps', 'big'])
+	if style == 'dense':
+		pks = list(range(1, total + 1))
+	else:
+		pks = rng.sample(range(1, 4 * total + 3), total)
+		if style == 'big':
+			for j, v in zip(rng.sample(range(total), min(total, rng.randint(1, 3))), rng.sample(BIG_PKS, 3)):
+				pks[j] = v
+	pks.sort()
+	logical = list(range(1, total + 1))
+	rng.shuffle(logical)
+	members = set(rng.sample(range(total), n))
+	col = 1 + ATTRS.index(attr)
+	rows = []
+	for r, (pk, j) in enumerate(zip(pks, logical)):
+		rows.append([pk, f'key/{j}', f'GCA_{100 + j}.1', f'GCF_{100 + j}.1', 5000 + j, 'assembly', r in members])
+	ins = [r for r in rows if r[6]]
+	for r in rows:
+		if not r[6]:
+			if attr != 'key' and rng.random() < 0.3:
+				r[col] = None
+			elif attr == 'ncbi_id' and ins and rng.random() < 0.3:
+				r[4], r[5] = rng.choice(ins)[4], f'db{r[0]}'
+	return rows
+
+
+def layout_sigs(rng, attr, genomes, defect=None):
+	"""a signature file for the set: every in-set genome gets its own pool signature (random assignment), the file is
+	shuffled and padded with unrelated signatures (some under the identifiers of rows outside the set)"""
+	col = 1 + ATTRS.index(attr)
+	ins = [g for g in genomes if g[6]]
+	pool = rng.sample(range(NPOOL), len(ins))
+	spare = [p for p in range(NPOOL) if p not in pool] or [NPOOL - 1]
+	sigs = [[g[col], p] for g, p in zip(ins, pool)]
+	rng.shuffle(sigs)
+	mine = [g[col] for g in ins]
+	pads = [foreign_id(attr, j) for j in range(rng.choice([0, 1, 3, 6]))]
+	pads += [g[col] for g in genomes if not g[6] and g[col] is not None and g[col] not in mine and rng.random() < 0.6]
+	for v in dict.fromkeys(pads):
+		sigs.insert(rng.randint(0, len(sigs)), [v, rng.choice(spare)])
+	if defect == 'missing' and ins:
+		victim = rng.choice(mine)
+		sigs = [x for x in sigs if not same_id(x[0], victim)]
+	elif defect == 'repeat' and ins:
+		sigs.insert(rng.randint(0, len(sigs)), [rng.choice(mine), rng.choice(spare)])
+	if not sigs:
+		sigs = [[foreign_id(attr, 0), spare[0]]]
+	return sigs
+
+
+def layout_case(rng, attr, shape, n=None, n_out=None, defect=None, **kw):
+	n = n if n is not None else rng.choice([2, 3, 5, 8, 12])
+	n_out = n_out if n_out is not None else rng.choice([0, 1, 3, 6])
+	genomes = layout_genomes(rng, attr, n, n_out)
+	c = load_case(attr, genomes, layout_sigs(rng, attr, genomes, defect), kw.pop('chunksize', rng.choice([None, 1, 2, 5])),
+	              kw.pop('queries', rng.sample(range(NQUERY), rng.choice([1, 2]))), report=rng.choice([1, 3, 10]), **kw)
+	if c['via'] == 'mem':
+		c['mem'] = [rng.choice(MEM_SIGS), rng.choice(['list', 'tuple', 'npscalars'])]
+	c['dblayout'] = random_layout(rng, genomes, shape)
+	return c
+
+
+def gen_db_layouts(ctx, rng):
+	"""how the genome database FILE came to hold the genome set: genome rows and annotation rows inserted in independent
+	orders (genomes registered first and added to the set later, a set built from some of the genomes already in the table,
+	inserts of both kinds interleaved), annotation rows with explicit out-of-order rowids, rows deleted and re-inserted,
+	temporary rows and a temporary second genome set that leave holes, taxa assigned in a separate pass, VACUUM / ANALYZE,
+	sparse and huge primary keys, rows outside the set anywhere in primary-key order -- built with sqlite3 or through the
+	ORM.  The logical content (which genome has which identifiers, which genomes are in the set) is all the property speaks
+	of; every load / command-line / several-databases / matching-function case is judged by the same predicates as
+	elsewhere."""
+	n_l = 0
+	shapes = list(LAYOUT_SHAPES) + ['mixed']
+
+	def checked(kind, c, layouts):
+		bad = [layout_walk(g, lay)[0] for g, lay in layouts]
+		if any(bad):
+			ctx.count('layout-generator-rejected')
+			return None
+		return kind, c
+
+	# small scope, complete: 3 genomes of the set + 1 row outside it between them; every insertion order of the annotation
+	# rows x every order of the signatures in the file; then every insertion order of the annotation rows of 4 genomes
+	n_x = 0
+	for n in (3, 4):
+		pks = [2, 3, 5, 7][:n]
+		for a_order in itertools.permutations(pks):
+			for f_order in (itertools.permutations(range(n)) if n == 3 else [None]):
+				attr = ATTRS[n_x % 4]
+				col = 1 + ATTRS.index(attr)
+				genomes = [[pk, f'key/{pk}', f'GCA_{100 + pk}.1', f'GCF_{100 + pk}.1', 5000 + pk, 'assembly', pk != 4] for pk in pks + [4]]
+				genomes.sort()
+				ins = [g for g in genomes if g[6]]
+				f_order = list(f_order) if f_order else rng.sample(range(n), n)
+				sigs = [[ins[j][col], j] for j in f_order]
+				sigs.insert(n_x % (n + 1), [genomes[2][col] if n_x % 2 else foreign_id(attr, 0), NPOOL - 1])
+				ops = [['g', g[0]] for g in genomes] + [['a', pk, None, 1] for pk in a_order] + [['commit']]
+				c = load_case(attr, genomes, sigs, [None, 1, 2][n_x % 3], [n_x % NQUERY], via=['dir', 'ctor', 'load'][n_x % 3])
+				c['dblayout'] = dict(ops=ops, builder='orm' if n_x % 5 == 4 else 'sql')
+				got = checked('load', c, [(genomes, c['dblayout'])])
+				if got:
+					yield got
+					n_x += 1
+	n_l += n_x
+	ctx.count('layout:enumerated-annotation-orders', n_x)
+
+	# every shape, every attribute, the ways in
+	n_load = ctx.pick(220, 2600)
+	for i in range(n_load):
+		shape = shapes[i % len(shapes)] if i < 4 * len(shapes) else rng.choice(shapes + ['mixed'] * 6)
+		attr = ATTRS[(i // len(shapes)) % 4] if i < 4 * len(shapes) else rng.choice(ATTRS)
+		defect = rng.choice([None] * 8 + ['missing', 'repeat']) if i >= 4 * len(shapes) else None
+		c = layout_case(rng, attr, shape, defect=defect, via=rng.choice(['dir', 'dir', 'ctor', 'load', 'mem']))
+		got = checked('load', c, [(c['genomes'], c['dblayout'])])
+		if got:
+			ctx.count('layout:' + shape)
+			yield got
+			n_l += 1
+
+	# through the command line
+	for i in range(ctx.pick(24, 200)):
+		shape = shapes[i % len(shapes)]
+		c = layout_case(rng, ATTRS[i % 4], shape, n=rng.choice([3, 5, 7]), defect=[None, None, None, None, None, 'missing'][i % 6],
+		                chunksize=None, queries=[0])
+		c['fmt'] = CLI_FMTS[i % 3]
+		c['qin'] = CLI_QIN[(i // 3) % 3]
+		if c['qin'] != 'sigfile':
+			c['cores'] = 1
+		got = checked('cli', c, [(c['genomes'], c['dblayout'])])
+		if got:
+			ctx.count('layout:cli:' + shape)
+			yield got
+			n_l += 1
+
+	# several databases open together: each with its own layout; one signature file for several differently laid out sets
+	for i in range(ctx.pick(24, 200)):
+		share = [None, 'sigs', 'dir'][i % 3]
+		k = rng.choice([2, 2, 3])
+		if share is None:
+			dbs = [layout_case(rng, rng.choice(ATTRS), rng.choice(shapes), n=rng.choice([2, 3, 5]), defect=rng.choice([None, None, None, 'missing']),
+			                   via=rng.choice(['dir', 'ctor', 'load'])) for _ in range(k)]
+		elif share == 'dir':
+			c = layout_case(rng, rng.choice(ATTRS), rng.choice(shapes), n=rng.choice([3, 5]), via='dir')
+			dbs = [dict(c, via=rng.choice(['dir', 'ctor']), chunksize=rng.choice([None, 1, 2]), queries=[rng.randrange(NQUERY)]) for _ in range(k)]
+		else:
+			attr = ATTRS[(i // 3) % 4]
+			base = layout_genomes(rng, attr, 6, 2)
+			six = [g for g in base if g[6]]
+			sigs = layout_sigs(rng, attr, base)
+			dbs = []
+			for _ in range(k):
+				members = {g[0] for g in rng.sample(six, rng.choice([2, 3, 4, 6]))}
+				rows = [list(g[:6]) + [g[0] in members] for g in base]
+				c = load_case(attr, rows, sigs, rng.choice([None, 1, 2]), [rng.randrange(NQUERY)], via='ctor')
+				c['dblayout'] = random_layout(rng, rows, rng.choice(shapes))
+				dbs.append(c)
+		plan = [rng.randrange(len(dbs)) for _ in range(rng.choice([0, 2, 3]))]
+		got = checked('multi', dict(dbs=dbs, share=share, plan=plan), [(c['genomes'], c['dblayout']) for c in dbs])
+		if got:
+			ctx.count('layout:multi:share=' + str(share))
+			yield got
+			n_l += 1
+
+	# the matching functions directly
+	for i in range(ctx.pick(48, 400)):
+		attr = ATTRS[i % 4]
+		col = 1 + ATTRS.index(attr)
+		shape = shapes[(i // 4) % len(shapes)]
+		genomes = layout_genomes(rng, attr, rng.choice([2, 4, 7]), rng.choice([0, 2, 4]))
+		ids = list(dict.fromkeys(g[col] for g in genomes if g[col] is not None)) + [foreign_id(attr, j) for j in range(rng.choice([0, 1, 3]))]
+		if rng.random() < 0.25 and len(ids) > 1:
+			del ids[rng.randrange(len(ids))]
+		rng.shuffle(ids)
+		forms = ['list', 'tuple', 'npscalars'] + (['i8'] if attr == 'ncbi_id' else ['O', 'U'])
+		c = dict(attr=attr, genomes=genomes, ids=ids, attr_form=['str', 'attribute'][i % 2], ids_form=rng.choice(forms),
+		         dblayout=random_layout(rng, genomes, shape))
+		got = checked('match', c, [(genomes, c['dblayout'])])
+		if got:
+			ctx.count('layout:match:' + shape)
+			yield got
+			n_l += 1
+	ctx.count('stream:database-layouts', n_l)
+
+
 def gen_dir_special(ctx, rng):
 	"""directory contents the name grammar does not reach: the empty directory, symbolic links (to a genome database,
 	a signature file, a directory, nothing) and zero-length files under database names, many unrelated files, names with
@@ -1992,10 +2619,13 @@ def generate(ctx):
 	yield from gen_match(ctx, rng)
 	yield from gen_dir_special(ctx, rng)
 	yield from gen_cli_forms(ctx, rng)
+	yield from gen_db_layouts(ctx, rng)
 
 	ctx.exhaustive = True
 	ctx.extra['exhaustive_scope'] = (f'load: for each of the 4 identifier attributes, every order of the signatures of <= {N} genomes x '
 	                                 '{no padding, one unrelated signature at every position, one at both ends}; every single-genome way '
 	                                 'of breaking completeness of a 3-genome set (dropped, replaced, repeated, NULL value, wrong attribute, '
-	                                 'wrong type, id_attr None/unknown). dir: every single name of the grammar '
+	                                 'wrong type, id_attr None/unknown); database-layouts: every insertion order of the annotation rows '
+	                                 'of 3 genomes (registered first, one row outside the set between them) x every order of their '
+	                                 'signatures in the file, every insertion order of the annotation rows of 4 genomes. dir: every single name of the grammar '
 	                                 f'({len(pool)} names), every pair of 12 core names, all 16 content combinations of a well-named pair')
